@@ -339,11 +339,18 @@ class CFG:
             if isinstance(a, ast.Assign):
                 for t in a.targets:
                     out += _target_defs(t, a.value, ())
+                    out += _setitem_defs(t, a.value, ())
             elif isinstance(a, ast.AnnAssign) and a.value is not None:
                 out += _target_defs(a.target, a.value, ())
             elif isinstance(a, ast.AugAssign):
                 if isinstance(a.target, ast.Name):
                     out.append((a.target.id, "aug", a))
+                elif isinstance(a.target, ast.Subscript) and isinstance(a.target.value, ast.Name):
+                    out.append((a.target.value.id, "augitem", a))
+            elif isinstance(a, ast.Expr) and isinstance(a.value, ast.Call) and isinstance(a.value.func, ast.Attribute) \
+                    and isinstance(a.value.func.value, ast.Name) and a.value.func.attr in ("append", "extend", "update", "insert") \
+                    and a.value.func.value.id not in ("self", "cls"):
+                out.append((a.value.func.value.id, "mutcall", a.value))
             elif isinstance(a, (ast.FunctionDef, ast.AsyncFunctionDef, ast.ClassDef)):
                 out.append((a.name, "def", a))
             elif isinstance(a, (ast.Import, ast.ImportFrom)):
@@ -428,6 +435,17 @@ def _target_defs(target, value, path, how="assign"):
     elif isinstance(target, ast.Starred):
         out += _target_defs(target.value, value, path + ("*",), how)
     # Attribute / Subscript targets bind no local name
+    return out
+
+
+def _setitem_defs(target, value, path):
+    """x[i] = v  binds a new abstract value store(x, i, v) to the local name x"""
+    out = []
+    if isinstance(target, ast.Subscript) and isinstance(target.value, ast.Name):
+        out.append((target.value.id, "setitem", (target, value, path)))
+    elif isinstance(target, (ast.Tuple, ast.List)):
+        for i, el in enumerate(target.elts):
+            out += _setitem_defs(el, value, path + (i,))
     return out
 
 
